@@ -105,6 +105,7 @@ class Node(V):
     shape: Optional[str] = None  # bounded structural description (only inside one action evaluation)
     label: str = field(default="", compare=True)
     located: Optional[bool] = None  # True: complete location given; False: incomplete; None: class has none
+    locsrc: tuple = ()  # (sorted bases of the start line, sorted bases of the end line) — only inside one evaluation
 
     def __repr__(self):
         s = self.cls
